@@ -52,14 +52,20 @@ SelRatio(t, a, w)   == GetRatio(Loaded(t, a, 1), w)
 SumPos(t) == SumSeq([i \in DOMAIN t |-> IF t[i] > 0 THEN t[i] ELSE 0])
 
 (* ---------------------------------------- clauses of C05 *)
-Flow(Sel(_, _, _), t, k) == SumSeq([a \in DOMAIN t |-> IF t[a] > 0 THEN Cardinality({u \in Draws(t[a]) : Sel(t, a, u) = k}) ELSE 0])
-FlowBalanceInside  == \A t \in Tables : \A k \in DOMAIN t : t[k] <= 0 => Flow(SelInside, t, k) = 0 - t[k]
-FlowBalanceOutside == \A t \in Tables : \A k \in DOMAIN t : t[k] <= 0 => Flow(SelOutside, t, k) = 0 - t[k]
-FlowBalanceRatio   == \A t \in Tables : \A a \in Positives(t) : \A k \in DOMAIN t :
-                          t[k] <= 0 => Cardinality({w \in Draws(SumPos(t)) : SelRatio(t, a, w) = k}) = 0 - t[k]
-NeverNonNegative   == \A t \in Tables : \A a \in Positives(t) :
-                          /\ \A u \in Draws(t[a]) : t[SelInside(t, a, u)] < 0 /\ t[SelOutside(t, a, u)] < 0
-                          /\ \A w \in Draws(SumPos(t)) : t[SelRatio(t, a, w)] < 0
+(* selections per table, computed once: [active unit -> [draw index -> selected unit]] *)
+SelsOf(Sel(_, _, _), t) == [a \in DOMAIN t |-> IF t[a] > 0 THEN [j \in 1 .. t[a] |-> Sel(t, a, 2 * j - 1)] ELSE <<>>]
+Inflow(sels, k) == SumSeq([a \in DOMAIN sels |-> Cardinality({j \in DOMAIN sels[a] : sels[a][j] = k})])
+Balanced(Sel(_, _, _), t) == LET sels == SelsOf(Sel, t) IN
+                             /\ \A k \in DOMAIN t : t[k] <= 0 => Inflow(sels, k) = 0 - t[k]
+                             /\ \A a \in DOMAIN t : \A j \in DOMAIN sels[a] : t[sels[a][j]] < 0
+FlowBalanceInside  == \A t \in Tables : Balanced(SelInside, t)
+FlowBalanceOutside == \A t \in Tables : Balanced(SelOutside, t)
+FlowBalanceRatio   == \A t \in Tables : \A a \in Positives(t) :
+                          LET sp == SumPos(t)
+                              rs == [j \in 1 .. sp |-> SelRatio(t, a, 2 * j - 1)]
+                          IN  /\ \A k \in DOMAIN t : t[k] <= 0 => Cardinality({j \in DOMAIN rs : rs[j] = k}) = 0 - t[k]
+                              /\ \A j \in DOMAIN rs : t[rs[j]] < 0
+NeverNonNegative   == TRUE       \* folded into the three clauses above (every selected unit has a negative derivative)
 ASSUME FlowBalanceInside /\ FlowBalanceOutside /\ FlowBalanceRatio /\ NeverNonNegative
 
 (* ---------------------------------------- the object as a state machine: reset, inserts of one table, get *)
@@ -86,11 +92,13 @@ ResetClears == pos = Len(tab) + 3 => obj = Fresh
 NegativeListMatches == pos = Len(tab) + 1 => SumSeq(obj.neg) = obj.sumPos /\ Len(obj.neg) = Len(obj.ids)
 
 (* rows: interior draws (io: inside/outside-first per draw u; ra: ratio per draw w) and the end points *)
-EmitTable == PrintT(<<"TABLE", ToJson(
+ASSUME TLCSet(7, 0)
+(* printed once: the table is a constant, but TLC would re-evaluate (and re-serialise) it in every state *)
+EmitTable == TLCGet(7) = 1 \/ (TLCSet(7, 1) /\ PrintT(<<"TABLE", ToJson(
     [rows |-> UNION {{[t |-> t, a |-> a,
                        io |-> [j \in 1 .. t[a] |-> <<SelInside(t, a, 2 * j - 1), SelOutside(t, a, 2 * j - 1)>>],
                        ra |-> [j \in 1 .. SumPos(t) |-> SelRatio(t, a, 2 * j - 1)],
                        end |-> <<SelInside(t, a, 0), SelOutside(t, a, 0), SelRatio(t, a, 0),
                                  SelInside(t, a, 2 * t[a]), SelOutside(t, a, 2 * t[a]), SelRatio(t, a, 2 * SumPos(t))>>]
-                      : a \in Positives(t)} : t \in Tables}])>>)
+                      : a \in Positives(t)} : t \in Tables}])>>))
 =============================================================================
